@@ -267,3 +267,24 @@ theorem run_result (P : Prims) (O : OutPrims) (h : PrimsNoPanic P O) (cfg : Cfg)
 theorem run_std_noPanic (cfg : Cfg) (fs : FS) (fuel : Nat) (src : Bytes) (line : Nat) (env : Env) :
     ∀ w, run stdPrims stdOut cfg fs fuel src line env ≠ .panic w :=
   run_noPanic stdPrims stdOut std_noPanic cfg fs fuel src line env
+
+/-- **The value filters `json`, `inspect`, `type` never panic** (`Liquid/Filters/Json.lean`): for every
+    receiver and every argument list, `x | json: …`, `x | inspect: …` and `x | type: …` evaluated through
+    `ApplyFilter` + `values.Call` end in a value, an error (wrong argument count, a drop yielding
+    nil) or the explicit `unmodelled` marker — the model of `json.Marshal` (floats, strings, base64,
+    sorted maps, structs, pointers, times) and of `%T` has no reachable panic site
+    (`jsonImpls_noPanic`, a component of `std_noPanic` and hence of `run_std_noPanic`). -/
+theorem json_inspect_type_noPanic (name : Bytes) (hn : name ∈ [JsonF.bn "json", JsonF.bn "inspect", JsonF.bn "type"])
+    (recv : GoVal) (args : List GoVal) :
+    ∀ w, applyFilter (lookupImpl JsonF.impls) name recv args ≠ .panic w ∧ stdPrims.applyFilter name recv args ≠ .panic w := by
+  intro w
+  have h1 := applyFilter_noPanic jsonImpls_noPanic name recv args
+  have h2 := std_noPanic.applyFilter name recv args
+  constructor
+  · intro h; rw [h] at h1; exact h1
+  · intro h; rw [h] at h2; exact h2
+
+-- the theorem is about calls that reach the bodies: `[1.5, "<"] | json` marshals, `nil | type` prints `<nil>`
+example : (applyFilter (lookupImpl JsonF.impls) (JsonF.bn "json") (.slice .any [.flt .f64 (3/2), .str [60]]) []).isOk = true := by
+  decide +kernel
+example : (applyFilter (lookupImpl JsonF.impls) (JsonF.bn "type") .nil []).isOk = true := by decide +kernel
